@@ -70,6 +70,10 @@ pub fn miner_policy(min_power: u64) -> Policy {
     p
 }
 
+pub fn fake_unsealed_cid_pub(proof_type: RegisteredSealProof, pis: &[PieceInfo]) -> Result<cid::Cid, anyhow::Error> {
+    fake_unsealed_cid(proof_type, pis)
+}
+
 fn fake_unsealed_cid(proof_type: RegisteredSealProof, pis: &[PieceInfo]) -> Result<cid::Cid, anyhow::Error> {
     if pis.is_empty() {
         return Ok(CompactCommD::empty().get_cid(proof_type).unwrap());
